@@ -207,6 +207,12 @@ def classify(t):
     f = number_form(core)
     if f is None:
         return ("not-number", "no-form")
+    # NaN and Inf are literals in exactly that spelling: a separator inside the word gives a text that is an
+    # ordinary identifier (In_f, Na,N are legal variable names), not one of the documented literals
+    keep = [i for i, c in enumerate(t) if c not in SEPS]
+    for m in re.finditer(r"NaN|Inf", core):
+        if keep[m.end() - 1] - keep[m.start()] != 2:
+            return ("not-number", "separator-inside-NaN-or-Inf")
     digs = [i for i, c in enumerate(t) if c in "0123456789"]
     first_sep = min(i for i, c in enumerate(t) if c in SEPS)
     if not digs:
